@@ -211,6 +211,24 @@ def oracle(op, obs):
     return None
 
 
+def goa_roots(c):
+    """goa's OWN roots, as its packages register them at start-up (a fresh process, no reset): a result type generated while the design
+    root executes (Result(CollectionOf(X)) inside a Method) lands in the generated-result-types root, which was empty when the evaluation
+    started. Dependencies first and every DSL executed before validation: the design root is evaluated first and the collection's DSL
+    has run (its name, its element type, its views)."""
+    rc, so, se = sh([os.path.join(BIN, "rteval"), "goaroots"])
+    line = (so.strip().splitlines() or [""])[-1]
+    c.evaluations += 1
+    c.count("goaroots")
+    f = dict(x.split("=", 1) for x in line.split() if "=" in x)
+    c.hist("goa's own roots", line or "no output")
+    want = {"order": "design,generated-result-types", "typename": "BottleCollection", "views": "2", "collection": "1", "err": "~"}
+    bad = [k for k in want if f.get(k) != want[k]]
+    if rc != 0 or bad:
+        c.fail("goaroots/" + "+".join(bad or ["crash"]), "with the roots as goa registers them, a design whose method returns CollectionOf(Bottle) evaluates to %s; "
+               "expected %s" % (line or se[-300:], " ".join("%s=%s" % kv for kv in want.items())), input="rteval goaroots", expected=str(want), actual=line)
+
+
 def run(c):
     c.cov["rule"] = ("Context.Roots on every irreflexive digraph with 1-%d roots x every registration order (exhaustive), then random "
                      "graphs on 4-8 roots (DAGs and cyclic, duplicate dependencies, partial registration); RunDSL on random worlds of "
@@ -230,6 +248,7 @@ def run(c):
     ok_model = c.lake_build("drv_eval", what="tie")
     if not have:
         return
+    goa_roots(c)
     rc, so, se = sh([os.path.join(BIN, "rteval"), "gen", "-seed", str(c.seed), "-tier", c.tier])
     ops = c.corpus() + so.splitlines()
     impl_cmd = [os.path.join(BIN, "rteval"), "run"]
